@@ -106,6 +106,7 @@ void modelPosition(const std::vector<std::string>& tok, Model& m) {
     try { p = TextIO::readFEN(fen); } catch (const ChessParseError&) { return; }
     ref::Pos r;
     m.legal = ref::fromFEN(TextIO::toFEN(p), r) && fz::plausibleMaterial(r);
+    if (fz::excludeClocks() && !fz::clocksSane(p.getHalfMoveClock(), p.getFullMoveCounter())) m.legal = false;
     if (idx < n && tok[idx++] == "moves") {
         for (size_t i = idx; i < n; i++) {
             Move mv = TextIO::uciStringToMove(tok[i]);
